@@ -30,7 +30,7 @@ PROFILE_KW = dict(
     p_shared=0.7,
     p_item_fault=0.03,
     p_wrap=0.6,
-    w_stmt=dict(raise_=0.15, orphan=0.8),
+    w_stmt=dict(raise_=0.15, orphan=0.8, cancelbatch=0.25),
     w_leaf=dict(again=2.0, err=0.15, junk=0.05, lazy=0.4, none=1.0, const=1.2),
     w_struct=dict(leaf=3, tuple=3, list=4, dict=1.5),
     lazy_modes=["ok", "sync", "sync", "raise"],
